@@ -61,6 +61,7 @@ type Node struct {
 	Handler                                      *framework.ABIHandler
 	ABI                                          *ABILoop
 	events                                       chan interface{}
+	done                                         chan struct{}
 	cancel                                       context.CancelFunc
 	Transport                                    p2p.VerifTransport
 	// OnEventSync is called synchronously with the executer (which is blocked meanwhile) for every event it publishes.
@@ -84,12 +85,24 @@ func NewNode(id int, p *ChainParams, tr p2p.VerifTransport) *Node {
 // Start opens the databases and wires the engine the way engine.Engine.Start does (without the Start loops: the
 // simulator calls their branches as events).
 func (n *Node) Start() (err error) {
+	if n.done != nil {
+		close(n.done)
+	}
+	n.done = make(chan struct{})
 	n.FS = n.Disk.Open()
 	if n.OnOpen != nil {
 		n.OnOpen(n.FS) // a harness may arm a crash point for the recovery itself
 	}
 	fs := n.FS
 	knobs := n.P.DBKnobs
+	if knobs.MemTableSize == 0 {
+		// pebble allocates memtables and block cache outside the Go heap and frees them on Close only; a generation
+		// that was killed never closes, so the defaults (4 MB + 8 MB per database) would add up over thousands of runs
+		knobs.MemTableSize = 512 << 10
+	}
+	if knobs.CacheSize == 0 {
+		knobs.CacheSize = 256 << 10
+	}
 	knobs.Fatal = func(msg string) { fs.Die("pebble fatal: " + msg) }
 	open := func(path string) *db.DB {
 		if err != nil {
@@ -156,12 +169,22 @@ func (n *Node) Start() (err error) {
 		a, b := make(chan interface{}), make(chan interface{})
 		n.Exec.VerifEvents().On(topic, a)
 		n.Exec.VerifEvents().On(topic, b)
+		done := n.done
 		go func() {
-			for m := range a {
-				if n.OnEventSync != nil {
-					n.OnEventSync(n, m)
+			for {
+				select {
+				case m := <-a:
+					if n.OnEventSync != nil {
+						n.OnEventSync(n, m)
+					}
+					select {
+					case <-b:
+					case <-done:
+						return
+					}
+				case <-done:
+					return // the process generation ended: its observers go with it (and release what they hold)
 				}
-				<-b
 			}
 		}()
 		n.Exec.VerifEvents().On(topic, n.events)
@@ -195,6 +218,10 @@ func (n *Node) Stop(graceful, power bool) {
 	}
 	n.Up = false
 	n.cancel()
+	if n.done != nil {
+		close(n.done)
+		n.done = nil
+	}
 	if graceful {
 		for _, d := range []*db.DB{n.BlockchainDB, n.GeneratorDB, n.StateDB, n.ModuleDB} {
 			_ = d.VerifClose()
